@@ -74,7 +74,7 @@ Reverse(s) == [i \in 1..Len(s) |-> s[Len(s) + 1 - i]]
 RECURSIVE Select(_, _, _)
 Select(cs, j, st) ==
   IF j > Len(cs) THEN [st |-> st, ok |-> TRUE, j |-> 0, cls |-> ""]
-  ELSE LET r == Use1(st, Eval(cs[j], st)) IN
+  ELSE LET r == NoPend(Use1(st, Eval(cs[j], st))) IN
        IF ~r.ok THEN [st |-> r.st, ok |-> FALSE, j |-> 0, cls |-> r.cls]
        ELSE IF Truthy(r.st.heap, r.v) THEN [st |-> r.st, ok |-> TRUE, j |-> j, cls |-> ""]
        ELSE Select(cs, j + 1, r.st)
@@ -100,13 +100,13 @@ StepSeqRun(x, t, fr) ==
                     ELSE SetTop(y, [t2 EXCEPT !.sc = PopN(@, 1)])
     [] s.k = "for" ->
          LET t1 == PushSc(t)
-             r == IF NoneNode(s.i) THEN R(StOf(x, t1), VVoid) ELSE Eval(s.i, StOf(x, t1))
+             r == IF NoneNode(s.i) THEN R(StOf(x, t1), VVoid) ELSE NoPend(Eval(s.i, StOf(x, t1)))
          IN IF ~r.ok THEN Fail(Back(x, t1, r.st), r.cls, s.sid, r.st.wrap)
             ELSE LET y == Back(x, t1, r.st)
                  IN SetTop(y, [SetPh(TopT(y), "poll") EXCEPT !.ctl = Append(@, [f |-> "for", node |-> s, ph |-> "cond"])])
     [] s.k = "forin" ->
          LET t1 == PushSc(t)
-             r == Use1(StOf(x, t1), Eval(s.it, StOf(x, t1)))
+             r == NoPend(Use1(StOf(x, t1), Eval(s.it, StOf(x, t1))))
          IN IF ~r.ok THEN Fail(Back(x, t1, r.st), r.cls, s.sid, r.st.wrap)
             ELSE LET y == Back(x, t1, r.st)
                      kd == KindOf(y.heap, r.v)
@@ -120,7 +120,7 @@ StepSeqRun(x, t, fr) ==
                                          !.ctl = Append(@, [f |-> "forin", node |-> s, items |-> items, i |-> 1,
                                                             ph |-> "next", strmode |-> kd = "str"])])
     [] OTHER ->      \* expression / assignment / call statement
-         LET r == Eval(s, StOf(x, t)) IN
+         LET r == IF DirectUse(s) THEN Eval(s, StOf(x, t)) ELSE NoPend(Eval(s, StOf(x, t))) IN
          IF ~r.ok THEN Fail(Back(x, t, r.st), r.cls, s.sid, r.st.wrap)
          ELSE LET y == Back(x, t, r.st)
                   t2 == SetPh(TopT(y), "poll")
@@ -141,7 +141,7 @@ EndLoop(x, t, nsc) == SetTop(x, [t EXCEPT !.ctl = PopN(@, 1), !.sc = PopN(@, nsc
 StepFor(x, t, fr) ==
   LET s == fr.node IN
   CASE fr.ph = "cond" ->
-         LET r == IF NoneNode(s.c) THEN R(StOf(x, t), VBool(TRUE)) ELSE Use1(StOf(x, t), Eval(s.c, StOf(x, t))) IN
+         LET r == IF NoneNode(s.c) THEN R(StOf(x, t), VBool(TRUE)) ELSE NoPend(Use1(StOf(x, t), Eval(s.c, StOf(x, t)))) IN
          IF ~r.ok THEN Fail(Back(x, t, r.st), r.cls, s.sid, r.st.wrap)
          ELSE LET y == Back(x, t, r.st)
                   u == TopT(y)
@@ -153,7 +153,7 @@ StepFor(x, t, fr) ==
                   u == TopT(y)
               IN IF u.exit THEN EndLoop(y, u, 1) ELSE SetTop(y, SetPh(u, "post"))
     [] fr.ph = "post" ->
-         LET r == IF NoneNode(s.p) THEN R(StOf(x, t), VVoid) ELSE Eval(s.p, StOf(x, t)) IN
+         LET r == IF NoneNode(s.p) THEN R(StOf(x, t), VVoid) ELSE NoPend(Eval(s.p, StOf(x, t))) IN
          IF ~r.ok THEN Fail(Back(x, t, r.st), r.cls, s.sid, r.st.wrap)
          ELSE LET y == Back(x, t, r.st) IN SetTop(y, SetPh(TopT(y), "cond"))
 
